@@ -98,7 +98,9 @@ Definition oracle18 (dc : dcase) (impl : dout) : bool :=
   match snd dc with
   | DRaw op args => events_eqb e1 [ECmd op args] && events_eqb e2 [ECmd op args] && ok1 && ok2
   | d =>
-      match dcs_of d with
+      (* SetAddressMode values built through new / From<&ModelOptions> / with_*: the byte is the MIPI bit assignment
+         (spec_byte), not what the model computes *)
+      match match spec_byte d with Some b => Some (SetAddressMode b) | None => dcs_of d end with
       | None => false
       | Some c =>
           let '(op, ps) := spec_wire c in
